@@ -125,9 +125,26 @@ def build(sig, kind):
              f'F = ns_[{name!r}]; m_.__dict__[{name!r}] = F\n'
              f"W = eval({wsrc!r}, ns_)\n")
   ns = {}
-  exec(prelude, ns)  # pylint: disable=exec-used
+  try:
+    exec(prelude, ns)  # pylint: disable=exec-used
+  except Exception as e:  # pylint: disable=broad-except
+    raise BuildError(f'{type(e).__name__}: {e}', prelude) from e
   _BUILT[key] = (ns['F'], ns['W'], prelude)
   return _BUILT[key]
+
+
+class BuildError(Exception):
+  pass
+
+
+def try_build(rec, sig, kind):
+  """build() that records a failure instead of raising."""
+  try:
+    return build(sig, kind)
+  except BuildError as e:
+    rec.case(f'{_family(kind)}.symbolizing-a-valid-callable-fails/{kind}', (sig.id, kind), ok=False,
+             message=f'{sig.params}: {e.args[0]}', witness=e.args[1])
+    return None
 
 
 def call(fn, *a, **k):
@@ -157,6 +174,13 @@ def agree(want, got):
 
 def _short(o):
   return 'ok' if o[0] == 'ok' else (f'TypeError({o[1]})' if o[0] == 'TypeError' else o[1])
+
+
+def _vs(want, got):
+  """Case-id fragment describing expected vs observed outcome."""
+  if want[0] == 'ok' and got[0] == 'ok' and want[1] != got[1]:
+    return 'python-ok/got-different-result'
+  return f'python-{_short(want)}/got-{_short(got)}'
 
 
 def shapes(sig, extra='z'):
@@ -221,7 +245,10 @@ def reference_two_stage(f, sig, cargs, ckw, args, kw, override):
 
 def expected_init_args(f, sig, cargs, ckw):
   """What sym_init_args must describe after construction (None: not judged)."""
-  b = inspect.signature(f).bind_partial(*cargs, **ckw)
+  try:
+    b = inspect.signature(f).bind_partial(*cargs, **ckw)
+  except TypeError:
+    return None
   out = {}
   for nm, p in inspect.signature(f).parameters.items():
     if p.kind == p.VAR_POSITIONAL:
@@ -295,14 +322,14 @@ def _single_stage_functor(rec, sig, kind, f, w, prelude, shape_iter, deep):
       x = w(*a, **k)
       return x()
     got = got1 = call(ctor_then_call)
-    rec.case(f'functor.bound-at-construction/python-{_short(want)}/got-{_short(got)}',
+    rec.case(f'functor.bound-at-construction/{_vs(want, got)}',
              (sig.id, kind, p, kws), ok=agree(want, got),
              message=f'{sig.params}: f({argsrc}) -> {want!r}; W({argsrc})() -> {got!r}',
              witness=_witness(prelude, f'import bounded.c18_functor as m\n'
                               f'assert m.agree(m.call(F, {argsrc}), m.call(lambda: W({argsrc})()))\n'))
     # (2) nothing bound, everything supplied at call time.
     got = call(lambda: w()(*a, **k))
-    rec.case(f'functor.supplied-at-call-time/python-{_short(want)}/got-{_short(got)}',
+    rec.case(f'functor.supplied-at-call-time/{_vs(want, got)}',
              (sig.id, kind, p, kws), ok=agree(want, got),
              message=f'{sig.params}: f({argsrc}) -> {want!r}; W()({argsrc}) -> {got!r}',
              witness=_witness(prelude, f'import bounded.c18_functor as m\n'
@@ -324,7 +351,7 @@ def _single_stage_functor(rec, sig, kind, f, w, prelude, shape_iter, deep):
     # (4) copies describe the same call.
     for name, src in _roundtrips(x):
       got = call(lambda: eval(src, {'x': x, 'pg': pg})())  # pylint: disable=eval-used
-      rec.case(f'functor.{name}/python-{_short(want)}/got-{_short(got)}', (sig.id, kind, p, kws),
+      rec.case(f'functor.{name}/{_vs(want, got)}', (sig.id, kind, p, kws),
                ok=agree(want, got),
                message=f'{sig.params}: f({argsrc}) -> {want!r}; {src} of W({argsrc}) called -> {got!r}',
                witness=_witness(prelude, f'import bounded.c18_functor as m\nx = W({argsrc})\n'
@@ -354,7 +381,10 @@ def drv_functor_single_stage(tier, seed):
       use = kinds
     for kind in use:
       s = Sig(sig.n, sig.ndef, sig.va, sig.kwo, sig.vk, annotated=True) if 'auto_typing' in kind else sig
-      f, w, prelude = build(s, kind)
+      built = try_build(rec, s, kind)
+      if built is None:
+        continue
+      f, w, prelude = built
       _check_signature(rec, s, kind, f, w, prelude)
       sh = list(shapes(s))
       if quick:
@@ -391,7 +421,7 @@ def _two_stage_case(rec, sig, kind, f, w, prelude, c, d, override, how, deep):
     return x(*a2, **dict(k2, **({'override_args': True} if ov_call else {})))
   got = call(run)
   what = 'override' if override else 'no-override'
-  rec.case(f'functor.two-stage[{what}]/python-{_short(want)}/got-{_short(got)}',
+  rec.case(f'functor.two-stage[{what}]/{_vs(want, got)}',
            (sig.id, kind, c, d, override, how), ok=agree(want, got),
            message=f'{sig.params}: W({csrc})({dsrc}) -> {got!r}; Python semantics -> {want!r}',
            witness=_witness(prelude, 'import bounded.c18_functor as m\n'
@@ -406,6 +436,8 @@ def _two_stage_case(rec, sig, kind, f, w, prelude, c, d, override, how, deep):
   if x is None:
     return
   exp = expected_init_args(f, sig, a1, k1)
+  if exp is None:
+    return
   try:
     rep = init_args_of(x)
   except Exception as e:  # pylint: disable=broad-except
@@ -423,7 +455,7 @@ def _two_stage_case(rec, sig, kind, f, w, prelude, c, d, override, how, deep):
         return y(*a2, **dict(k2, override_args=True))   # a construction flag is not an argument
       return y(*a2, **dict(k2, **({'override_args': True} if ov_call else {})))
     got = call(again)
-    rec.case(f'functor.two-stage.{name}[{what}]/python-{_short(want)}/got-{_short(got)}',
+    rec.case(f'functor.two-stage.{name}[{what}]/{_vs(want, got)}',
              (sig.id, kind, c, d, override, how), ok=agree(want, got),
              message=f'{sig.params}: x = W({csrc}); ({src})({dsrc}) -> {got!r}; want {want!r}',
              witness=_witness(prelude, 'import bounded.c18_functor as m\n'
@@ -446,7 +478,10 @@ def drv_functor_two_stage(tier, seed):
   for i, sig in enumerate(all_sigs()):
     kind = kinds[(i + seed) % len(kinds)]
     s = Sig(sig.n, sig.ndef, sig.va, sig.kwo, sig.vk, annotated=True) if 'auto_typing' in kind else sig
-    f, w, prelude = build(s, kind)
+    built = try_build(rec, s, kind)
+    if built is None:
+      continue
+    f, w, prelude = built
     sh = [(p, kws) for p, kws in shapes(s) if p <= s.n + 1]
     pairs = list(itertools.product(sh, sh))
     small = len(s.names) <= (1 if quick else 2)
@@ -480,7 +515,10 @@ def drv_class_wrappers(tier, seed):
     use = [kinds[(i + seed) % len(kinds)]] if quick else kinds
     for kind in use:
       s = Sig(sig.n, sig.ndef, sig.va, sig.kwo, sig.vk, annotated=True) if 'auto_typing' in kind else sig
-      c, w, prelude = build(s, kind)
+      built = try_build(rec, s, kind)
+      if built is None:
+        continue
+      c, w, prelude = built
       _check_signature(rec, s, kind, c, w, prelude)
       sh = _pick(shapes(s), r, 16 if quick else 120)
       for j, (p, kws) in enumerate(sh):
@@ -494,7 +532,7 @@ def drv_class_wrappers(tier, seed):
           x = w(*a, **k)
           return x.r
         got = call(make)
-        rec.case(f'class-wrapper.construct/python-{_short(want)}/got-{_short(got)}',
+        rec.case(f'class-wrapper.construct/{_vs(want, got)}',
                  (s.id, kind, p, kws), ok=agree(want, got),
                  message=f'__init__(self, {s.params}): C({argsrc}).r -> {want!r}; W({argsrc}).r -> {got!r}',
                  witness=_witness(prelude, 'import bounded.c18_functor as m\n'
@@ -516,7 +554,7 @@ def drv_class_wrappers(tier, seed):
                                   f'assert m.init_args_of(W({argsrc})) == {exp!r}\n'))
         for name, src in _roundtrips(x):
           got2 = call(lambda: eval(src, {'x': x, 'pg': pg}).r)  # pylint: disable=eval-used
-          rec.case(f'class-wrapper.{name}/python-{_short(want)}/got-{_short(got2)}',
+          rec.case(f'class-wrapper.{name}/{_vs(want, got2)}',
                    (s.id, kind, p, kws), ok=agree(want, got2),
                    message=f'{s.params}: ({src}).r of W({argsrc}) -> {got2!r}, want {want!r}',
                    witness=_witness(prelude, 'import bounded.c18_functor as m\n'
@@ -533,7 +571,7 @@ def drv_class_wrappers(tier, seed):
             return y.r
           got3 = call(late)
           # Required arguments must all be present after the rebind for __init__ to run.
-          rec.case(f'class-wrapper.partial+rebind/python-{_short(want)}/got-{_short(got3)}',
+          rec.case(f'class-wrapper.partial+rebind/{_vs(want, got3)}',
                    (s.id, kind, p, kws), ok=agree(want, got3),
                    message=f'{s.params}: W.partial({_fmt_call((), k1)}).rebind({_fmt_call((), k2)}).r -> {got3!r}, want {want!r}',
                    witness=_witness(prelude, 'import bounded.c18_functor as m\n'
@@ -556,7 +594,10 @@ def drv_functor_late_binding(tier, seed):
   for i, sig in enumerate(all_sigs()):
     kind = kinds[(i + seed + 1) % len(kinds)]
     s = Sig(sig.n, sig.ndef, sig.va, sig.kwo, sig.vk, annotated=True) if 'auto_typing' in kind else sig
-    f, w, prelude = build(s, kind)
+    built = try_build(rec, s, kind)
+    if built is None:
+      continue
+    f, w, prelude = built
     names = s.names
     if not names:
       continue
@@ -585,7 +626,7 @@ def drv_functor_late_binding(tier, seed):
         return ns['x']()
       got = call(run)
       rec.case(f'functor.late-binding[{via}' + ('+del' if dele else '')
-               + f']/python-{_short(want)}/got-{_short(got)}', (s.id, kind, k1, k2, dele, via),
+               + f']/{_vs(want, got)}', (s.id, kind, k1, k2, dele, via),
                ok=agree(want, got),
                message=f'{s.params}: {"; ".join(lines)}; x() -> {got!r}; f({_fmt_call((), eff)}) -> {want!r}',
                witness=_witness(prelude, 'import bounded.c18_functor as m\n' + body
@@ -600,7 +641,7 @@ def drv_functor_late_binding(tier, seed):
           with pg.enable_type_check(False):
             return w()(*a, **k)
         got = call(unchecked)
-        rec.case(f'functor.call-under-enable_type_check(False)/python-{_short(want)}/got-{_short(got)}',
+        rec.case(f'functor.call-under-enable_type_check(False)/{_vs(want, got)}',
                  (s.id, kind, a, tuple(k)), ok=agree(want, got),
                  message=f'{s.params}: with pg.enable_type_check(False): W()({argsrc}) -> {got!r}; f({argsrc}) -> {want!r}',
                  witness=_witness(prelude, 'import bounded.c18_functor as m\n'
